@@ -27,6 +27,8 @@ Elems(un) ==
     [] un = "mapsz" -> <<M1(KK, IntV(1)), MapV(<< <<JJ, IntV(2)>>, <<KK, IntV(1)>> >>), M1(SZ, IntV(7)), M1(SZ, Nil), MapV(<<>>)>>
     \* whole numbers as integers and as floats: equal by ==, so one element to uniq (the first occurrence stays)
     [] un = "numeq" -> <<IntV(1), Flt(1, 1), IntV(0 - 1), Flt(0 - 1, 1), IntV(0 - 2), Flt(1, 2)>>
+    \* values that look empty or false without being nil: compact keeps them all
+    [] un = "falsy" -> <<Bool(FALSE), Nil, IntV(0), Str(<<>>), Bool(TRUE)>>
     [] un = "int" -> <<IntV(3), IntV(1), IntV(2)>>
     [] un = "mix" -> <<Nil, Str(<<97>>), IntV(1), Arr(<<IntV(1)>>), Arr(<<Str(<<49>>)>>)>>
 
@@ -45,7 +47,7 @@ CallsOf(un) ==
   \cup [name : {"sort", "map"}, arg : {"k"}, then : {"none"}]
   \cup [name : {"reverse", "sort", "compact", "uniq"}, arg : {"none"}, then : {"reverse", "compact", "sort", "size", "first", "join"}]
 
-Init == /\ u \in {"num", "str", "map", "int", "mix", "mapsz", "numeq"}
+Init == /\ u \in {"num", "str", "map", "int", "mix", "mapsz", "numeq", "falsy"}
         /\ \E n \in 0..N : ix \in SeqsOfLen(n, Len(Elems(u)))
         /\ call \in CallsOf(u)
 Next == UNCHANGED vars
